@@ -101,6 +101,34 @@ def run(full=False):
         bad = os.path.join(ctx.scratch, "bin-bad.ndjson")
         mutate_trace(tf, bad, flip_byte)
         expect_reject(ctx, "TraceBinary: one byte of an as_bytes output flipped", "trace/TraceBinary.cfg", "trace/TraceBinary.tla", bad, results)
+        # --- the design-level invariants have teeth: mutated SPECIFICATIONS must be refuted by TLC
+        import shutil, re as _re
+        specmut = [
+            ("HpoAlgo.tla", "allp' = [allp EXCEPT ![f.t] = f.res \\cup parents[f.t]]", "allp' = [allp EXCEPT ![f.t] = f.res]",
+             "mc/MC_Connect3free.cfg", "mc/MC_Connect.tla", "connect machine: Return forgets the direct parents"),
+            ("HpoAlgo.tla", "Cached(t) == parents[t] = {} \\/ allp[t] # {}", "Cached(t) == TRUE",
+             "mc/MC_Connect3free.cfg", "mc/MC_Connect.tla", "connect machine: every term counts as cached"),
+            ("HpoAlgo.tla", "LFrame(t) == [t |-> t, todo |-> Sorted(allp[t])]", "LFrame(t) == [t |-> t, todo |-> Sorted(allp[t] \\ {Max(allp[t] \\cup {0})})]",
+             "mc/MC_Annot3q.cfg", "mc/MC_Annot.tla", "link machine: the largest ancestor is skipped"),
+            ("HpoLookup.tla", "slots' = [slots EXCEPT ![id] = Len(terms)]", "slots' = [slots EXCEPT ![id] = Len(terms) - 1]",
+             "mc/MC_Lookup.cfg", "mc/MC_Lookup.tla", "arena: slot index off by one"),
+            ("HpoCombine.tla", "ELSE <<Cols(M) * SumRowMax(M) + Rows(M) * SumColMax(M), 2 * Rows(M) * Cols(M)>>", "ELSE <<Rows(M) * SumRowMax(M) + Cols(M) * SumColMax(M), 2 * Rows(M) * Cols(M)>>",
+             "mc/MC_Combine.cfg", "mc/MC_Combine.tla", "funSimAvg divides by the wrong dimension (transpose lemma must fail)"),
+        ]
+        for fname, old_, new_, cfg, mod, what in specmut:
+            d = os.path.join(ctx.scratch, "specmut")
+            shutil.rmtree(d, ignore_errors=True)
+            shutil.copytree(hvlib.SPEC, d, ignore=shutil.ignore_patterns(".tlacache", "states"))
+            src = open(os.path.join(d, fname)).read()
+            if old_ not in src:
+                results.append((f"spec mutant applies: {what}", False))
+                continue
+            open(os.path.join(d, fname), "w").write(src.replace(old_, new_))
+            r = subprocess.run(["java", "-Xss1g", "-XX:+UseParallelGC", "-cp", hvlib.TLA_CP, "tlc2.TLC", "-workers", "8", "-metadir", os.path.join(ctx.scratch, "specmut-meta"),
+                                "-cleanup", "-noGenerateSpecTE", "-config", cfg, mod], cwd=d, stdout=subprocess.PIPE, stderr=subprocess.STDOUT, text=True, timeout=900)
+            refuted = "is violated" in r.stdout or "Error:" in r.stdout
+            results.append((f"mutated specification refuted by TLC: {what}", refuted))
+            log(f"[selftest] spec mutant '{what}': {'refuted' if refuted else 'NOT refuted - invariant is vacuous!'}")
         if full:
             rc, out = subprocess.getstatusoutput("git -C /repo status --porcelain")
             if out.strip():
